@@ -6,7 +6,7 @@ from . import skel
 from . import numlib as nl
 
 
-def spec_apply_scheme(chk, unit_prefix="", want=("fresh", "bind", "order", "tail", "nopanic")):
+def spec_apply_scheme(chk, unit_prefix="", want=("fresh", "bind", "order", "tail", "nopanic"), extra_probe=None):
     ex = chk.executor(True)
     nat = chk.ws.runner("dev")
     unit = unit_prefix + "Interpreter::apply_scheme_procedure (sub-evaluations stubbed)"
@@ -16,7 +16,10 @@ def spec_apply_scheme(chk, unit_prefix="", want=("fresh", "bind", "order", "tail
         return {"fixed": st["fx"], "variadic": st["va"], "nargs": skel.seq_len_term(st["args"]), "ndefs": st["nd"], "nbody": st["nb"]}
 
     def replay(vals):
-        return skel.scheme_shape_probe(nat, vals["fixed"], vals["variadic"], vals["nargs"], vals["ndefs"], vals["nbody"])
+        bad, detail = skel.scheme_shape_probe(nat, vals["fixed"], vals["variadic"], vals["nargs"], vals["ndefs"], vals["nbody"])
+        if not bad and extra_probe is not None:
+            bad, detail = extra_probe(nat)
+        return bad, detail
 
     def on_path(rv, events, st):
         chk.path(unit)
@@ -148,6 +151,12 @@ EVAL_PROBES = [
     ("(define (f) (if 0 7) (if 1 8))\n(f)", ["OK I 8"]), ("(apply (lambda (a . r) r) 1 '(2 3))", ["OK L 2 I 2 I 3"]), ("(apply + 1 2)", ["ERR TypeMisMatch"]),
     # an error in an operand stops the evaluation of the later ones
     ("(define c 0)\n(+ 1 (car 5) (begin (set! c 1) 2))\nc", ["OK -", "ERR TypeMisMatch", "OK I 0"]),
+    # literal vectors (quoted or not) are immutable, constructed ones are not
+    ("(define v #(1 2 3))\n(vector-set! v 0 9)\n(define q '#(1 2))\n(vector-set! q 0 9)\n(define m (vector 1 2))\n(vector-set! m 0 9)\nm", ["OK -", "ERR RequiresMutable", "OK -", "ERR RequiresMutable", "OK -", "OK U", "OK VM 2 I 9 I 2"]),
+    # a failing definition defines nothing
+    ("(define v (vector 1))\n(define x (vector-ref v 7))\nx\n(set! x 1)\n(define y y)\ny", ["OK -", "ERR VectorIndexOutOfBounds", "ERR UnboundedSymbol", "ERR UnboundedSymbol", "ERR UnboundedSymbol", "ERR UnboundedSymbol"]),
+    # closures of the same lambda created by different calls keep their own environment, also across tail calls between them
+    ("(define (make n) (lambda (next) (if next (next #f) n)))\n((make 1) (make 2))", ["OK -", "OK I 2"]),
 ]
 _EP = {}
 
@@ -387,3 +396,63 @@ def apply_tail_probe(nat):
         bad = out[-1] != "OK Y " + "done".encode().hex()
         _ATP[id(nat)] = (bad, "program %r gives %s (a loop whose tail call goes through apply must run in bounded stack)" % (prog, out[-1][:40]))
     return _ATP[id(nat)]
+
+
+# ================================================================================================ eval_expression_or_definition
+def spec_definition(chk):
+    """a definition evaluates its initialiser once and THEN binds the name; a failing initialiser binds nothing"""
+    from ..mir import ENUMS
+    from ..core import MapObj
+    ex = chk.executor(True)
+    nat = chk.ws.runner("dev")
+    unit = "Interpreter::eval_expression_or_definition (eval_expression stubbed)"
+    chk.region_ns = {}
+    replay = lambda vals: eval_probe(nat)
+    target = MapObj("target_defs")
+    target.meta["arbitrary"] = True
+    target.meta["val_ty"] = "values::Value<R>"
+    envrc = Ref(Cell(Adt("LexicalScope", None, [Adt("Option", "None", []), target]), "target_frame"))
+
+    @skel.stub(ex, r"::eval_expression$", "eval_expression -> any Ok(value) or any Err; logged with the number of bindings the target frame has at that moment")
+    def eval_expr(ex, callee, args, rt):
+        ex.log("eval", expr=skel.name_of(ex, args[0]), env=skel.frame_of(ex, args[1])[0], nbound=len(target.entries))
+        v = Lazy("values::Value<R>", "init_value")
+        for b in ex.branches([True, True]):
+            if b == 0:
+                ex.log("eval_ok", value=v)
+                yield skel.Ok(v)
+            else:
+                e = skel.err_value("from the initialiser")
+                ex.log("eval_err", error=e)
+                yield skel.Err(e)
+
+    st = Lazy("parser::parser::Statement", "stmt")
+    it = Lazy("interpreter::Interpreter<R>", "it")
+    f = ex.fn_by_suffix("::eval_expression_or_definition")
+    ex.panic_hook = lambda info: chk.oblige(ex, unit, "no-panic", z3.BoolVal(False), {}, replay)
+    STM = ENUMS["Statement"]
+    for rv in ex.run(f, [Ref(Cell(it)), Ref(Cell(st)), envrc]):
+        chk.path(unit)
+        tag = ex.lazy_tag(st)
+        kind = next((k for j, k in enumerate(STM) if ex.ctx.check(tag == j) == z3.sat), None)
+        evs = [e for e in ex.events if e["kind"] == "eval"]
+        errs = [e for e in ex.events if e["kind"] == "eval_err"]
+        oks = [e for e in ex.events if e["kind"] == "eval_ok"]
+        writes = [(k, p, c) for (k, p, c) in target.entries if not (hasattr(p, "decl") and str(p).startswith("has_"))]
+        written = [(k, c.v) for (k, p, c) in target.entries if z3.is_true(z3.simplify(p))]
+        is_err = isinstance(rv, Adt) and rv.variant == "Err"
+        post = [z3.BoolVal(all(e["env"] is envrc.cell for e in evs))]
+        if kind == "Definition":
+            post.append(z3.BoolVal(len(evs) == 1 and evs[0]["nbound"] == 0))          # nothing is bound before the initialiser has been evaluated
+            if errs:
+                post.append(z3.BoolVal(is_err and rv.fields[0] is errs[-1]["error"] and not written))
+            else:
+                post.append(z3.BoolVal(len(written) == 1 and oks and written[0][1] is oks[-1]["value"] and not is_err))
+        elif kind == "Expression":
+            post.append(z3.BoolVal(len(evs) == 1 and not written))
+        elif kind == "SyntaxDefinition":
+            post.append(z3.BoolVal(not evs and len(written) == 1 and not is_err))
+        else:
+            post.append(z3.BoolVal(is_err and not evs and not written))
+        chk.oblige(ex, unit, "%s: the initialiser/expression is evaluated once in the target frame; a name is bound only after its initialiser succeeded; a failure binds nothing" % kind,
+                   z3.And(*post), {}, replay)
